@@ -329,14 +329,16 @@ open Nix.Order Nix.Generated.MutatorOrder
 /-- the mutators that do *not* follow the discipline syntactically, one by one, and where their refusals are dealt with -/
 def writesFirst : List String := [
   "Section.create_section", "Source.create_source", "Section.create_property", "Section.copy_section",
-    -- `open_group(<container>, True)` precedes the duplicate test: an empty, invisible group (writer model: `Unch`)
+    -- `open_group(<container>, True)` precedes the duplicate test: an empty, invisible group (writer model: `Unch`;
+    -- the copy paths: `Props/C12Copies.lean`, where that write is `invisible`)
   "Feature.create_new", "Tag.create_new",
     -- id / entity written first, the rest inside a protected section (writer model: `createFeatureW`, `createInW`)
   "MultiTag.create_new", "SampledDimension.create_new", "DimensionLink.create_new",
     -- building blocks called inside the protected sections of `create_multi_tag` / `append_*_dimension` /
     -- after the validations of `link_data_array` / `link_data_frame`
   "Dimension.link_data_array", "Dimension.link_data_frame", "DataArray.append_range_dimension_using_self",
-    -- validate, then `remove_link()` followed by `DimensionLink.create_new` (oracle: catalogue + spelling sweep)
+    -- validate, then `remove_link()` followed by `DimensionLink.create_new`: theorems of their own over the inlined
+    -- statements (`Props/C12Links.lean`: `link_functions_safe`, `*_refused_unchanged`)
   "DataFrame.append_column",
     -- builds the widened dataset beside the old one inside a protected section, then swaps (oracle)
   "Section.__setitem__",
